@@ -1,8 +1,9 @@
 From Coq Require Import Extraction ExtrOcamlBasic ZArith.
-From M Require Import base.ExtractBase gen.Consts model.Counter model.Quota.
+From M Require Import base.ExtractBase gen.Consts model.Counter model.Quota model.Account.
 Extraction Language OCaml.
 Extraction "model.ml"
   xb_zadd xb_zmul xb_zdiv xb_zmod xb_zopp xb_zltb xb_nadd xb_nmul xb_ndiv xb_nmod xb_z_of_n xb_n_of_z xb_n_of_nat xb_nat_of_n xb_keep
   C19_RollUpInterval
   hsum do_roll_up roll_up delta_between counter0 tick roll_up_if_due cadd load_value query dump load_pb
-  check_quota refused validate_quota validate_user_quotas.
+  check_quota refused validate_quota validate_user_quotas
+  set_users policy_in_force read returned reads.
